@@ -646,6 +646,42 @@ def exec_for_string(engine, ctx, st, env, it):
     cleanup()
 
 
+_SPACES = None
+
+
+def spaces() -> CharClass:
+    global _SPACES
+    if _SPACES is None:
+        _SPACES = from_predicate(lambda c: chr(c).isspace())
+    return _SPACES
+
+
+def py_int_literal_re():
+    """The strings int(str) accepts (base 10): optional white space, optional sign, digits with single underscores between
+    them, optional white space - with the running interpreter's notion of white space and of decimal digits
+    (both enumerated over all code points)."""
+    d = digits().to_z3()
+    sp = z3.Star(spaces().to_z3())
+    sign = z3.Option(z3.Union(z3.Re(z3.StringVal("+")), z3.Re(z3.StringVal("-"))))
+    body = z3.Concat(d, z3.Star(z3.Concat(z3.Option(z3.Re(z3.StringVal("_"))), d)))
+    return z3.Concat(sp, sign, body, sp)
+
+
+def py_int_of_str(engine, ctx, s):
+    """(accepted, value) of int(s) for a symbolic string: accepted iff s is an integer literal (ASSUMED from the CPython
+    documentation of int(); the limit of 4300 digits is outside the model: callers bound the length of s); the value is
+    the decimal value for plain ASCII digit strings and an unconstrained integer for the other accepted spellings."""
+    ok = z3.InRe(s, py_int_literal_re())
+    plain = z3.InRe(s, z3.Plus(z3.Range(z3.StringVal("0"), z3.StringVal("9"))))
+    other = engine.uf("int!of-str", z3.StringSort(), z3.IntSort())(s)
+    return ok, z3.If(plain, z3.StrToInt(s), other)
+
+
+ASSUMED["int(str) (strmodel)"] = ("int(s) succeeds iff s is white space, an optional sign, decimal digits (Unicode Nd) with "
+                                  "single underscores between them, white space; otherwise ValueError; the value of a "
+                                  "plain ASCII digit string is its decimal value (strings shorter than 4300 characters)")
+
+
 def enable():
     """Called by a specification module: switch the string model on and list its assumed contracts in the evidence."""
     global ENABLED
